@@ -4,7 +4,7 @@
    pot_fill, treat_fill, geomcomp, comp_names) are those of C09/Model.v that
    the correspondence ties execute against the Python code. *)
 From Coq Require Import List NArith ZArith QArith Qpower Bool String Ascii.
-From T4V Require Import Base.Str C09.Model C09.Spec C09.ProofsNorm C09.ProofsIdem C09.ProofsValue C09.ProofsLike C09.ProofsFill C09.ProofsComp C09.ProofsWrite.
+From T4V Require Import Base.Str C09.Model C09.Spec C09.ProofsNorm C09.ProofsIdem C09.ProofsValue C09.ProofsLike C09.ProofsFill C09.ProofsComp C09.ProofsWrite C09.ProofsSign.
 Import ListNotations.
 Open Scope string_scope.
 
@@ -519,6 +519,18 @@ Theorem C09_block_head : forall (mc : mcard) (pw : list (string * list (string *
     block_text mc pw nd = typ ++ " 300 m" ++ dec_Z (k_key mc) ++ "_" ++ nd ++ " " ++ rest.
 Proof. exact block_text_head. Qed.
 Print Assumptions C09_block_head.
+
+(* the type of a block: [neg_density] (the model of `float(density) < 0.0`,
+   tied byte for byte through block_text) holds of the stored density exactly
+   when the VALUE of the number spelled on the cell card is negative: a mass
+   density gives a DENSITY block, an atom density a POINT_WISE block; zero
+   (also written -0.0) is not negative *)
+Theorem C09_density_type_by_sign : forall (n : number) (pad : nat) (m : marker),
+  wf_number n = true -> marker_ok n m = true ->
+  exists nd, normalize_float (spell n pad m) = Ok nd /\
+             (neg_density nd = true <-> (number_value n < 0)%Q).
+Proof. exact neg_density_iff_negative. Qed.
+Print Assumptions C09_density_type_by_sign.
 
 Example C09_write_nontrivial :
   let cells := [(1, mkCell "1" (Some "-1.0") 1 0 None []); (2, mkCell "01" (Some "-2.5") 1 0 None []);
